@@ -364,7 +364,8 @@ class FGradientAbstract(Contract):
     returns = F2
     trusted = True
     description = ("summary (shape only) of the verified contracts f_gradient@fd / f_gradient@cd used at the discipline level: the Jacobian has one row per "
-                   "output component and one column per differentiated component (all the components when x_indices is empty)")
+                   "output component and one column per differentiated component (all the components when x_indices is empty); ASSUMES that the call returns: "
+                   "with per-component steps (auto_set_step) and a strict subset of components gemseo raises ValueError (reported, not under contract)")
 
     def ensures(self, c):
         x, idx = c.old.x_vect, c.old.x_indices
